@@ -98,6 +98,14 @@ func c06HopsChild(scPath string) int {
 		for k := 0; k < rng.Intn(3); k++ {
 			jsonOut = append(jsonOut, fmt.Sprintf("%q", mkOut("asset-json")))
 		}
+		// a bare host in the JSON (no path): first classified as an asset by its "extension" (the TLD), then
+		// moved to the outlinks - it is an outlink of the asset like the others
+		if rng.Intn(3) == 0 {
+			host := pick(rng, []string{"dc.example", "other.example", "notdc.example"})
+			u := fmt.Sprintf("https://%s.%s", tg.next(), host)
+			exps = append(exps, exp{u, "asset-json-bare-host"})
+			jsonOut = append(jsonOut, fmt.Sprintf("%q", u))
+		}
 		// outlinks announced in a Link response header of the page
 		pageHdr := http.Header{"Content-Type": {"text/html"}}
 		if rng.Intn(2) == 0 {
